@@ -177,6 +177,95 @@ Proof.
 Qed.
 Print Assumptions C11_files_independent_of_destination.
 
+(* --- 8. tar archives with a history.  kapture archives are append-only: features computed again are written again
+        under the same name.  What is read for a name is the bytes of the LAST member of that name (a regular file),
+        whatever earlier members of that name hold *)
+Theorem C11_tar_last_entry_wins : forall a n b,
+  tar_read a n = Some b <-> exists l1 l2, a = l1 ++ (n, Some b) :: l2 /\ ~ In n (map fst l2).
+Proof. exact tar_read_char. Qed.
+Print Assumptions C11_tar_last_entry_wins.
+
+(* for every archive, writing a name again (add_array_to_tar) makes the new bytes its content and changes no other name *)
+Theorem C11_tar_rewrite_supersedes : forall a n d n',
+  tar_read (tar_append a n d) n' = if eqb n' n then Some d else tar_read a n'.
+Proof. exact tar_read_append. Qed.
+Print Assumptions C11_tar_rewrite_supersedes.
+
+(* the names listed for an archive are its member names, each once, however many times a name was written *)
+Theorem C11_tar_names : forall a, NoDup (tar_names a) /\ forall n, In n (tar_names a) <-> In n (map fst a).
+Proof. intros a. split; [apply tar_names_NoDup|intros n; apply tar_names_In]. Qed.
+Print Assumptions C11_tar_names.
+
+(* the merged file of path p holds exactly the CURRENT content of its source in the first input that has p:
+   the content of the file for a directory source, the bytes of the last member of that name for an archive *)
+Theorem C11_merged_file_is_current_source : forall archs srcs out p b,
+  merge_sources archs srcs = Some out ->
+  (lookup p out = Some b <->
+   exists i ar ss s, nth_error archs i = Some ar /\ nth_error srcs i = Some ss /\ find_src p ss = Some s /\
+     (forall i' ss', (i' < i)%nat -> nth_error srcs i' = Some ss' -> find_src p ss' = None) /\
+     src_current ar s b).
+Proof. exact merge_sources_lookup. Qed.
+Print Assumptions C11_merged_file_is_current_source.
+
+(* a member that was re-written last in its archive: the merge transfers the re-written bytes *)
+Corollary C11_rewritten_member_is_merged : forall archs srcs out i ar ss a p u k m d,
+  merge_sources archs srcs = Some out ->
+  nth_error archs i = Some ar -> nth_error srcs i = Some ss -> nth_error ar k = Some (tar_append a m d) ->
+  find_src p ss = Some (InTar p u k m) ->
+  (forall i' ss', (i' < i)%nat -> nth_error srcs i' = Some ss' -> find_src p ss' = None) ->
+  lookup p out = Some d.
+Proof.
+  intros archs srcs out i ar ss a p u k m d E Na Ns Nk F Min.
+  apply (proj2 (merge_sources_lookup _ _ _ p d E)). exists i, ar, ss, (InTar p u k m). repeat split; auto.
+  cbn. exists (tar_append a m d), a, []. repeat split; auto.
+Qed.
+Print Assumptions C11_rewritten_member_is_merged.
+
+(* what a reader lists for an archive (the regular entries of the index, compared with kapture's own listing on every run):
+   exactly the names with their current bytes *)
+Theorem C11_tar_listing : forall a n d, In (n, d) (regular (tar_index a)) <-> tar_read a n = Some d.
+Proof. exact tar_listing_char. Qed.
+Print Assumptions C11_tar_listing.
+
+(* for EVERY history of appends ws (any length, any interleaving of names) applied to any archive: a name that was written
+   reads as its last write, a name that was not written reads as before *)
+Theorem C11_tar_history : forall a ws n,
+  tar_read (tar_history a ws) n = match last_write n ws with Some d => Some d | None => tar_read a n end.
+Proof. exact tar_read_history. Qed.
+Print Assumptions C11_tar_history.
+
+(* the transfer from directories and archives cannot fail when every archive source names a member whose last entry is a
+   regular file holding whole rows *)
+Theorem C11_sources_transfer_total : forall archs srcs,
+  Forall2 (fun ar ss => Forall (src_ok ar) ss) archs srcs -> exists out, merge_sources archs srcs = Some out.
+Proof. exact merge_sources_total. Qed.
+Print Assumptions C11_sources_transfer_total.
+
+(* and the same holds when the destination is not empty (theorem 7 on archive sources) *)
+Theorem C11_sources_overwrite_destination : forall dest archs srcs,
+  (merge_sources_onto dest archs srcs = None <-> merge_sources archs srcs = None) /\
+  (forall out fs, merge_sources archs srcs = Some out -> merge_sources_onto dest archs srcs = Some fs ->
+     forall p, lookup p fs = match lookup p out with Some b => Some b | None => lookup p dest end).
+Proof.
+  intros dest archs srcs. pose proof (merge_sources_onto_spec dest archs srcs) as S.
+  destruct (merge_sources archs srcs) as [out|], (merge_sources_onto dest archs srcs) as [fs|]; try contradiction.
+  - split; [split; discriminate|]. intros out' fs' [= <-] [= <-] p. apply S.
+  - split; [tauto|]. intros out fs E; discriminate.
+Qed.
+Print Assumptions C11_sources_overwrite_destination.
+
+(* an index that keeps the FIRST member of a name (the seeded change "skip a name already seen") is refuted: it
+   returns the superseded bytes; the archive below is what `tar -cf x.tar .` then two kapture append sessions leave *)
+Lemma C11_tar_first_wins_refuted :
+  let a : archive := [("."%string, None); ("a.jpg.kpt"%string, Some "old-a"%string); ("dir"%string, None);
+                      ("dir/c.jpg.kpt"%string, Some "c"%string); ("a.jpg.kpt"%string, Some "newer-a"%string);
+                      ("a.jpg.kpt"%string, Some "current"%string)] in
+  tar_read_first a "a.jpg.kpt" = Some "old-a"%string /\ tar_read a "a.jpg.kpt" = Some "current"%string /\
+  tar_read a "dir" = None /\ tar_names a = ["."; "a.jpg.kpt"; "dir"; "dir/c.jpg.kpt"]%string /\
+  merge_sources [[a]; []] [[InTar "k/a.jpg.kpt" 1 0 "a.jpg.kpt"]; [InDir "k/a.jpg.kpt" 1 "other input"; InDir "k/b.jpg.kpt" 1 "b"]]
+    = Some [("k/a.jpg.kpt"%string, "current"%string); ("k/b.jpg.kpt"%string, "b"%string)].
+Proof. vm_compute. repeat split. Qed.
+
 (* --- non-vacuity: three inputs, colour-less clouds of different sizes, an input without points whose
        observations are dropped, an empty coloured cloud that does not impose its column count, the same
        image name in two inputs, two observations of the same (point, type, image) *)
